@@ -78,7 +78,18 @@ def S(**kw):
 class C22(Prop):
     id = 'C22'
     props_modules = ['CylcModel.Props.C22']
-    theorems = []
+    theorems = [
+        'CylcModel.C22.get_precedence',
+        'CylcModel.C22.rtconfig_override',
+        'CylcModel.C22.clear_exact',
+        'CylcModel.C22.expire_exact',
+        'CylcModel.C22.run_persist',
+        'CylcModel.C22.reload_identity_partial',
+        'CylcModel.C22.reload_identity_live',
+        'CylcModel.C22.reload_identity_single_item_partial',
+        'CylcModel.C22.reload_first_item_only_counterexample',
+        'CylcModel.C22.reload_identity_counterexample',
+    ]
     technique = 'extensional (lookup) characterisation + inductive invariant over histories; correspondence on the real BroadcastMgr + sqlite'
     trusted = [
         'value coercion (BroadcastConfigValidator), platform / run-mode checks of put_broadcast: environment; '
@@ -137,14 +148,14 @@ class C22(Prop):
 
     def note(self):
         base = ('get_precedence, rtconfig_override, clear_exact, expire_exact: full (all stores, filters, points, '
-                'inheritance chains). reload_identity: proved for every put/clear/expire/flush history under the '
+                'inheritance chains). reload_identity_partial: reload_identity_full proved for every put/clear/expire/flush history under the '
                 'hypotheses "every setting item is recorded" and "no key contains [ or ]"; ')
         if self.all_keys:
             return base + ('the live get_broadcast_change_iter records every item, so only the bracket hypothesis '
                            'remains (known finding bracket-key, counterexample theorem).')
         return base + ('the live get_broadcast_change_iter records only the first item of a multi-item setting '
                        '(known finding multikey-first-only, counterexample theorem, fix in findings/C22-fix-1.diff); '
-                       'for the live code reload_identity therefore holds for single-item settings only; keys '
+                       'for the live code the restart identity is proved for single-item settings only (reload_identity_single_item_partial); keys '
                        'containing brackets: known finding bracket-key (counterexample theorem).')
 
     def translate(self):
@@ -379,7 +390,7 @@ class C22(Prop):
         return self.mk(ops)
 
     def gen(self, tier, rng):
-        n = {'quick': 3000, 'thorough': 80000}.get(tier, 160000)
+        n = {'quick': 2000, 'thorough': 60000}.get(tier, 160000)
         for i in range(n):
             # a third of the histories use single-item settings only (the domain on which the unrepaired
             # code persists exactly), a tenth use keys containing brackets
@@ -404,7 +415,7 @@ class C22(Prop):
                 tags.add('get')
         if 'put' not in tags or len(tags) < 2:
             return None
-        return '+'.join(sorted(tags))
+        return '+'.join(sorted(tags - {'put', 'get', 'bad'})) or 'put+get'
 
     def neighbours(self, inp, rng):
         out = []
